@@ -52,6 +52,12 @@ Example ex_int_over : parse_int_lit [57;50;50;51;51;55;50;48;51;54;56;53;52;55;5
 Proof. vm_compute. reflexivity. Qed.
 Example ex_int_2_64 : parse_int [49;56;52;52;54;55;52;52;48;55;51;55;48;57;53;53;49;54;49;54] = NumRange.
 Proof. vm_compute. reflexivity. Qed.
+Example ex_int_min : negate_int_lit [57;50;50;51;51;55;50;48;51;54;56;53;52;55;55;53;56;48;56] = ((-9223372036854775808)%Z, 0).
+Proof. vm_compute. reflexivity. Qed.
+Example ex_int_below_min : negate_int_lit [57;50;50;51;51;55;50;48;51;54;56;53;52;55;55;53;56;48;57] = (0%Z, 1).
+Proof. vm_compute. reflexivity. Qed.
+Example ex_int_neg_max : negate_int_lit [57;50;50;51;51;55;50;48;51;54;56;53;52;55;55;53;56;48;55] = ((-9223372036854775807)%Z, 0).
+Proof. vm_compute. reflexivity. Qed.
 Example ex_int_zeros : parse_int_lit [48; 48; 48; 52; 50] = (42, 0). Proof. vm_compute. reflexivity. Qed.
 
 (* decimals: 0,1 and 0,3 have the hardware bit patterns; 2^53+1 written out rounds to even *)
